@@ -33,6 +33,7 @@ void   vf_same_scalars(const char *label, void *a, void *b, const char *type_nam
 void   vf_same_scalars_except(const char *label, void *a, void *b, const char *type_name, const char *skip_prefixes);
 void   vf_guarded(void *p, size_t n, void *mutex, const char *name);
 void   vf_guard_enable(int on);
+void   vf_watch_shared_state(int on);              /* engine B: stores to process-wide mutable library state need a lock from here on */
 long   vf_locks_held(void);                          /* harness-internal error (never a violation) */
 #ifdef __cplusplus
 }
